@@ -60,7 +60,8 @@ def register(_reg, _mt, STD):  # noqa: ANN001
         "keyed by type equality. Equality of convert(x, T) with x is value-level and not decided.",
         "normal-form comparison; table checks; control dependence of the conversion call", "DESIGN.md section 8", STD)
 
-    _reg('C07', [errors_rules.rule_c07_r1, errors_rules.rule_c07_r3, errors_rules.rule_c07_r4, errors_rules.rule_c07_r5, pairs.rule_c03_r1],
+    _reg('C07', [errors_rules.rule_c07_r1, errors_rules.rule_c07_r3, errors_rules.rule_c07_r4, errors_rules.rule_c07_r5, pairs.rule_c03_r1,
+                 errors_rules.rule_render_pure],
          "Decides the structural clauses of C07 over the seven composite diagnostic passes: children of a product node are keyed by the "
          "loop's own key / index and hold the tree reported by that element's own converter (unwrapped); a union node gets exactly one child "
          "per failing member in declaration order; 'extra' collects exactly unknown keys and 'missing' exactly absent required fields; every "
@@ -73,7 +74,8 @@ def register(_reg, _mt, STD):  # noqa: ANN001
         "provenance dataflow on accumulator fills; path counting in the CFG; sibling agreement", "DESIGN.md section 9", STD)
 
     _reg('C08', [errors_rules.rule_c08_r1, errors_rules.rule_c08_r2, errors_rules.rule_c08_r3, errors_rules.rule_c08_r4,
-                 errors_rules.rule_c08_r5, errors_rules.rule_c08_r6, extra.rule_no_truthiness_default_on_actual, pairs.rule_c03_r1],
+                 errors_rules.rule_c08_r5, errors_rules.rule_c08_r6, extra.rule_no_truthiness_default_on_actual, pairs.rule_c03_r1,
+                 errors_rules.rule_render_pure],
          "Decides structural clauses of C08: every field of every error node is used by its renderer; set-valued fields are rendered "
          "through sorted() (determinism across hash seeds); handlers for foreign exceptions attach the exception to the node; the "
          "inside_sum protocol is respected so the DuplicateKeyError assertion cannot trip; every print goes to the file parameter and "
